@@ -1,15 +1,20 @@
 ----------------------------- MODULE MultistreamMC -----------------------------
 (* Bounded instance of MultistreamImpl for TLC: all dialer lists (no repetition) of  *)
 (* length <= MaxList over Names, all listener subsets, both versions, all payload    *)
-(* pairs from Pays; exhaustive check of the Prop layer and behaviour generation.     *)
+(* pairs from Pays, carrier flush semantics per side from Bufs; exhaustive check of  *)
+(* the Prop layer and behaviour generation.                                          *)
 EXTENDS MultistreamImpl, Json
 
-CONSTANTS Names, MaxList, Pays, Lazies
+CONSTANTS Names, MaxList, Pays, Lazies,
+          Bufs        \* possible sets of sides whose outgoing carrier buffers until flushed
 
 Lists(n) == UNION {{q \in [1..k -> Names] : \A i, j \in 1..k : i # j => q[i] # q[j]} : k \in 0..n}
-Cfgs == [dlist : Lists(MaxList), lset : SUBSET Names, lazy : Lazies, dpay : Pays, lpay : Pays]
+Cfgs == [dlist : Lists(MaxList), lset : SUBSET Names, lazy : Lazies, dpay : Pays, lpay : Pays, buf : Bufs]
 
 PaysDef == {<<>>, <<2, 7>>}
+BufsNone == {{}}
+BufsSome == {{"d"}, {"l"}, {"d", "l"}}
+BufsAll == {{}, {"d"}, {"l"}, {"d", "l"}}
 PaysDef3 == {<<>>, <<1>>, <<2, 7>>, <<0, 3>>}
 
 Init == \E c \in Cfgs : ImplInit(c)
@@ -18,5 +23,6 @@ FairSpec == Spec /\ WF_vars(Start \/ (\E s \in Sides : SideStep(s)))
 
 \* generation: one io script per transition of the bounded graph
 Emit == PrintT(<<"B", ToJson([dlist |-> cfg.dlist, lset |-> cfg.lset, lazy |-> cfg.lazy,
-                               dpay |-> cfg.dpay, lpay |-> cfg.lpay, long |-> Long, ops |-> hist'])>>)
+                               dpay |-> cfg.dpay, lpay |-> cfg.lpay, dbuf |-> "d" \in cfg.buf, lbuf |-> "l" \in cfg.buf,
+                               long |-> Long, ops |-> hist'])>>)
 =============================================================================
